@@ -116,6 +116,45 @@ def run(ctx: Ctx):
             ctx.violation("property-fails", f"constructing instances of {name} changed its declared members / value map",
                           {"input": {"members": members, "calls": probes}})
             return
+    # enums emitted by the real generator (every underlying type, overrides, a member named None)
+    from . import genlib, specgen
+    gen_specs = [c[2] for c in specgen.catalogue_specs()[:2]] + [specgen.random_spec(rng, size=3) for _ in range(6 if ctx.thorough else 2)]
+    ngen = 0
+    for files in gen_specs:
+        run_ = genlib.GenRun(files)
+        try:
+            if run_.error is not None:
+                continue
+            run_.load()
+            for cname, E in sorted(run_.classes.items()):
+                if not (isinstance(E, type) and issubclass(E, enum.IntEnum)):
+                    continue
+                members = [(m.name, int(m.value)) for m in E]
+                before = snapshot(E)
+                probes = [o + dlt for _, o in members for dlt in (-1, 0, 1)] + PROBES
+                rng.shuffle(probes)
+                i = ndecl + ngen
+                ngen += 1
+                lines.append(f"enum new {i} " + (",".join(f"{n}:{o}" for n, o in members) or "-"))
+                impl.append("ok")
+                info.append((members, None))
+                for n in probes:
+                    why, ans_ = oracle_call(E, members, n)
+                    if why:
+                        ctx.violation("property-fails", f"generated enum {cname}: " + why, {"input": {"members": members, "calls": probes, "failing": n}})
+                        return
+                    lines.append(f"enum {i} call {n}")
+                    impl.append(ans_)
+                    info.append((members, n))
+                    ncalls += 1
+                    ctx.sig(("generated", n in dict((o, 1) for _, o in members), min(len(members), 6)))
+                if snapshot(E) != before:
+                    ctx.violation("property-fails", f"constructing instances of generated enum {cname} changed its members",
+                                  {"input": {"members": members, "calls": probes}})
+                    return
+        finally:
+            run_.cleanup()
+    ctx.count("generated_enum_classes", ngen)
     ans = d.ask(lines)
     for a, b, (members, n) in zip(impl, ans, info):
         if a != b:
